@@ -502,3 +502,140 @@ func TestVerifC16Close(t *testing.T) {
 	b.mu.Unlock()
 	out.emit(map[string]interface{}{"kind": "open-count", "open": open, "scenarios": len(scs)})
 }
+
+// TestVerifC16Overlap: several bridged connections that overlap in time.  Each client sends a
+// tag; closing one client must end exactly the server connection that received its tag, the
+// others stay usable until their own client closes, and in the end nothing is left open.
+func TestVerifC16Overlap(t *testing.T) {
+	out := verifOpenOut(t)
+	defer out.close()
+	b := startVerifBridge(t, func(sc *verifSrvConn) {
+		buf := make([]byte, 65536)
+		for {
+			n, err := sc.c.Read(buf)
+			sc.mu.Lock()
+			sc.rx.Write(buf[:n])
+			if err != nil {
+				sc.eof, sc.eofAt = true, time.Now()
+				sc.mu.Unlock()
+				sc.c.Close()
+				return
+			}
+			sc.mu.Unlock()
+		}
+	})
+	defer b.stop()
+	findConn := func(tag string) *verifSrvConn {
+		b.mu.Lock()
+		defer b.mu.Unlock()
+		for _, sc := range b.conns {
+			sc.mu.Lock()
+			has := bytes.Contains(sc.rx.Bytes(), []byte(tag))
+			sc.mu.Unlock()
+			if has {
+				return sc
+			}
+		}
+		return nil
+	}
+	for round, n := range []int{2, 3, 6} {
+		var clients []net.Conn
+		var tags []string
+		for i := 0; i < n; i++ {
+			c, err := net.Dial("tcp", b.frontAddr) // back to back: the bridge is still dialling for the previous ones
+			if err != nil {
+				out.emit(map[string]interface{}{"kind": "overlap", "round": round, "err": err.Error()})
+				return
+			}
+			tag := fmt.Sprintf("<tag-%d-%d>", round, i)
+			c.Write([]byte(tag))
+			clients = append(clients, c)
+			tags = append(tags, tag)
+		}
+		// every tag must arrive on its own server connection
+		deadline := time.Now().Add(3 * time.Second)
+		arrived := make([]bool, n)
+		for time.Now().Before(deadline) {
+			all := true
+			for i, tag := range tags {
+				arrived[i] = findConn(tag) != nil
+				all = all && arrived[i]
+			}
+			if all {
+				break
+			}
+			time.Sleep(20 * time.Millisecond)
+		}
+		// close in an order that is not the order of opening: first, last, then the rest
+		order := []int{0}
+		if n > 1 {
+			order = append(order, n-1)
+		}
+		for i := 1; i < n-1; i++ {
+			order = append(order, i)
+		}
+		closedSet := map[int]bool{}
+		for _, i := range order {
+			clients[i].Write([]byte("<bye>"))
+			closedAt := time.Now()
+			clients[i].Close()
+			closedSet[i] = true
+			res := map[string]interface{}{"kind": "overlap", "round": round, "connections": n, "closed_index": i, "tag_arrived": arrived[i]}
+			sc := findConn(tags[i])
+			sawEOF, gotBye := false, false
+			dl := time.Now().Add(3 * time.Second)
+			for sc != nil && time.Now().Before(dl) {
+				sc.mu.Lock()
+				sawEOF, gotBye = sc.eof, bytes.HasPrefix(sc.rx.Bytes(), []byte(tags[i])) && bytes.HasSuffix(sc.rx.Bytes(), []byte("<bye>"))
+				sc.mu.Unlock()
+				if sawEOF {
+					break
+				}
+				time.Sleep(20 * time.Millisecond)
+			}
+			res["peer_saw_eof"] = sawEOF
+			res["peer_received_all"] = gotBye
+			if sawEOF {
+				sc.mu.Lock()
+				res["eof_delay_ms"] = sc.eofAt.Sub(closedAt).Milliseconds()
+				sc.mu.Unlock()
+			}
+			// the connections still open must not have been ended, and must still carry data to their own server connection
+			disturbed, misrouted := 0, 0
+			for j := 0; j < n; j++ {
+				if closedSet[j] {
+					continue
+				}
+				probe := fmt.Sprintf("<probe-%d-%d-%d>", round, i, j)
+				clients[j].Write([]byte(probe))
+				okj := false
+				d2 := time.Now().Add(2 * time.Second)
+				for time.Now().Before(d2) && !okj {
+					if scj := findConn(tags[j]); scj != nil {
+						scj.mu.Lock()
+						okj = bytes.Contains(scj.rx.Bytes(), []byte(probe)) && !scj.eof
+						scj.mu.Unlock()
+					}
+					if !okj {
+						time.Sleep(20 * time.Millisecond)
+					}
+				}
+				if !okj {
+					disturbed++
+					if other := findConn(probe); other != nil && other != findConn(tags[j]) {
+						misrouted++
+					}
+				}
+			}
+			res["others_disturbed"] = disturbed
+			res["others_misrouted"] = misrouted
+			out.emit(res)
+		}
+	}
+	time.Sleep(500 * time.Millisecond)
+	b.mu.Lock()
+	open := b.open
+	total := len(b.conns)
+	b.mu.Unlock()
+	out.emit(map[string]interface{}{"kind": "open-count", "open": open, "scenarios": total})
+}
